@@ -197,7 +197,9 @@ ViewClauses(ev) ==
   LET e == ev.e  v == ev.v  p == Peer(e) IN {
     C({"C18"}, "RxQueueListsFinishedNotPopped", ToSet(v.rxq) = SuccessIds(rfin[e]) \ popped[e]),
     C({"C18"}, "TxQueueListsQueuedNotFinished", ToSet(v.txq) = Ids(queued[e]) \ Ids(sfin[e])),
-    C({"C18"}, "IdleOnlyWhenNothingPending", v.idle => NothingPending(e)),
+    \* (octets which arrived after the endpoint closed the connection are nobody's pending work)
+    C({"C18"}, "IdleOnlyWhenNothingPending",
+        v.idle => (NothingPending(e) \/ (closed[e] /\ Ids(queued[e]) \subseteq Ids(sfin[e]) /\ rxa[e].cur = NONE))),
     C({"C07"}, "EveryCompleteMessageActedOnAtCallbackEnd",
         (~v.closed /\ esc[e] = 0 /\ ~closed[e]) => hCum[e] + NextMsgSize(e) > rxOct[e]),
     C({"C07"}, "RemainderKeptInReceiveBuffer",
